@@ -228,10 +228,15 @@ def access_fn(case, wit):
     r = SequentialRunner(cfg, random.Random(0))
     r._setup()
     sim = r.simulator
+    # market ids per group follow from the declaration order (G0: two markets, G1: one, G2: range 0..0), not
+    # from the simulator's own group registry
+    ids_of = {"G0": {0, 1}, "G1": {2}, "G2": {3}}
+    if {m.market_id for m in sim.markets} != {0, 1, 2, 3}:
+        raise Violation("C18.range_ids", "entity ids are not unique and consecutive across groups", "%s" % [m.market_id for m in sim.markets])
     want = set()
     for g in case:
-        want |= set(m.market_id for m in sim.markets_group_name2market[g])
-    want_z = set(m.market_id for m in sim.markets_group_name2market[case[0]]) if case else set()
+        want |= ids_of[g]
+    want_z = ids_of[case[0]] if case else set()
     for a in sim.agents:
         got = set(m.market_id for m in sim.markets if a.is_market_accessible(m.market_id))
         if a.name.startswith("Z"):
